@@ -215,6 +215,7 @@ class PeerBase:
                 then = 'close'
             elif op == 'then_reset':
                 then = 'reset'
+                c.reset_pause = f.get('pause', 0.0)
             elif op == 'then_stall':
                 then = 'stall'
             else:
@@ -222,6 +223,7 @@ class PeerBase:
         self._raw_send(c, data, segment, delay)
         self.log('sent', c.idx, msg=label, n=len(data))
         if then == 'reset':
+            time.sleep(getattr(c, 'reset_pause', 0.0))
             c.reset = True
             raise _Abort()
         if then == 'close':
